@@ -47,6 +47,8 @@ type Result struct {
 	MapDigest           uint64
 	MapDecisions        int
 	Stage               string // where the run ended: parse|eval|event:<n>
+	TypeMon             string // first run-time type mismatch seen by the monitor inside eval (kind|static type|what the value is|where)
+	TypeMonChecks       int64
 }
 
 // Trace renders the effect trace plus terminal line.
@@ -227,6 +229,13 @@ func RunL1(sc *Scenario, o L1Opts) *Result {
 	ev.TestInfo.NoTestSummary = sc.NoTestSummary
 	ev.TestInfo.FailFast = sc.FailFast
 
+	evaluator.SimTypeMonOn = true
+	evaluator.SimTypeMonTake()
+	checks0 := evaluator.SimTypeMonChecks
+	defer func() {
+		res.TypeMon = evaluator.SimTypeMonTake()
+		res.TypeMonChecks = evaluator.SimTypeMonChecks - checks0
+	}()
 	res.Stage = "eval"
 	p.Idle() // before Eval starts: the platform may already have been told to stop
 	err, hp := guarded(res, func() error { return ev.Eval(prog) })
